@@ -278,11 +278,15 @@ def check_c08(tier):
     mask_kinds = ("del_node", "add_node", "paint", "add_edge")
     stages = [
         dict(name="core-bfs", worlds=["seg-2d-core"], seeds=HAND_SEEDS, depth=2, kinds=mask_kinds if q else SEG_KINDS),
-        dict(name="scales-2d", worlds=["seg-2d-aniso", "seg-2d-iso", "seg-2d-all", "seg-2d-aniso-ell"], seeds=HAND_SEEDS,
+        dict(name="scales-2d", worlds=["seg-2d-aniso", "seg-2d-iso", "seg-2d-all", "seg-2d-aniso-ell", "seg-2d-fd-loc"], seeds=HAND_SEEDS,
              depth=1 if q else 2, kinds=SEG_KINDS),
         dict(name="3d", worlds=["seg-3d-aniso"] if q else ["seg-3d", "seg-3d-aniso", "seg-3d-all"], seeds=HAND_SEEDS,
              depth=1 if q else 2, kinds=mask_kinds if q else SEG_KINDS),
     ]
+    if q:
+        # all 3D shape features (marching cubes, inertia tensor) on strokes that put one label
+        # inside another label's bounding box
+        stages.append(dict(name="3d-all-features", worlds=["seg-3d-all"], seeds=["div", "two"], depth=1, kinds=("paint", "add_node")))
     res = run_e1("C08", tier, stages, dict(undo_probe=True), time_budget=budget(tier, 150, 3000),
                  assumptions=["numpy reference for area/position uses rel_tol 1e-12; the from-scratch differential oracle is exact",
                               "2D perimeter/circularity only with isotropic spacing (skimage limitation)"])
@@ -662,7 +666,7 @@ def check_c16(tier):
     stages = [
         dict(name="noseg", worlds=["noseg-2d", "noseg-2d-axes"] if q else ["noseg-2d", "noseg-3d", "noseg-2d-axes", "noseg-2d-given", "noseg-2d-renamed"],
              seeds=NOSEG_SEEDS, depth=1, kinds=sk),
-        dict(name="seg", worlds=["seg-2d", "seg-2d-aniso", "seg-3d"], seeds=HAND_SEEDS if not q else ["div", "skip", "two"], depth=0 if q else 1, kinds=SEG_KINDS),
+        dict(name="seg", worlds=["seg-2d", "seg-2d-aniso", "seg-3d", "seg-2d-u8"], seeds=HAND_SEEDS if not q else ["div", "skip", "two", "desc"], depth=0 if q else 1, kinds=SEG_KINDS),
     ]
     if q:
         stages.append(dict(name="seg edited", worlds=["seg-2d"], seeds=["desc"], depth=1, kinds=("del_node", "paint", "add_edge")))
